@@ -77,7 +77,13 @@ func ruleUnitTable(w *World, r *Report, pfx string) map[string][]int64 {
 			for _, a := range p.Atoms {
 				c := p.cmpOf(a)
 				if p.R(c.X).V != s {
-					continue
+					// the mirrored form: threshold > s
+					if p.R(c.Y).V == s {
+						c.X, c.Y = c.Y, c.X
+						c.Op = swapOp(c.Op)
+					} else {
+						continue
+					}
 				}
 				k, ok := constInt(c.Y.V)
 				if !ok {
